@@ -20,7 +20,7 @@ const Spec specs[] = {
     {{"REPEAT", 60}, {"BULK", 4}, {"JUNK", 1}, {"LITERAL", 6}, {"TRANSFER", 6}, {"LINKAGE_W", 4}, {"LINKAGE_S", 2}, {"CONVENTION", 4}, {"IDENT_W", 4},
      {"UNARY", 2}, {"BINARY", 2}, {"PRODUCT", 40}, {"SUM", 20}, {"FUNCTION", 40}, {"AS_TYPE", 40}, {"STRING", 2}, {"SUBREGION", 1}, {"AUTO", 2}, {"DECLTYPE", 2}}},
    {"names",            {  20,  14,   2,  1,   0,   0,   0,   0,  0,   0,   0,   0,   0,   0,   0,   0},
-    {{"REPEAT", 70}, {"BULK", 3}, {"JUNK", 1}, {"XLIST", 4}, {"XLIST_PUSH", 3}, {"DECL", 3}, {"FORALL", 3}, {"PRODUCT", 3}, {"POINTER", 3}, {"TOKEN", 0},
+    {{"REPEAT", 70}, {"BULK", 3}, {"JUNK", 1}, {"XLIST", 4}, {"XLIST_PUSH", 3}, {"DECL", 12}, {"FORALL", 6}, {"PRODUCT", 3}, {"POINTER", 3}, {"TOKEN", 0},
      {"ANNOTATION", 0}, {"COMMENT", 0}, {"PHANTOM", 1}, {"ECLIPSIS", 1}, {"IDENT_W", 40}, {"LABEL", 20}, {"SYMBOL", 20}, {"AS_TYPE", 8}}},
    {"scopes",           {   2,   1,   2,  4,   1,   1,  60,   0,  0,   0,   0,   1,   3,   0,   0,   0},
     {{"ENUMERATOR", 8}, {"BASE", 6}, {"PLIST_ADD", 8}, {"MAPPING", 3}, {"LAMBDA", 2}, {"BLOCK", 3}, {"NEW_HANDLER", 3}, {"FUNCTION", 4}, {"FORALL", 4},
@@ -31,11 +31,11 @@ const Spec specs[] = {
    {"substs",           {   2,   2,   2,  0,   4,   0,   0,   0,  0,   0,   0,   0,   1,   0,  30,   0},
     {{"MAPPING", 8}, {"LAMBDA", 2}, {"REQUIRES", 2}, {"PLIST_ADD", 25}, {"SUBST_BIND", 60}, {"INSTANTIATION", 3}}},
    {"printable",        {   3,   3,   6,  4,  10,   8,  14,   6,  0,   0,   0,   0,   2,   5,   0,   0},
-    {{"LOCATE", 16}, {"JUNK", 4}, {"UNARY", 14}, {"BINARY", 20}, {"DECL", 150}, {"TOR", 1}, {"AUTO", 1}, {"DECLTYPE", 1}, {"GUIDE_NAME", 0}, {"DECL_FILL", 12}, {"ADD_STMT", 14}, {"TOKEN", 0}, {"ANNOTATION", 0}, {"COMMENT", 0},
+    {{"LOCATE", 16}, {"DEEP_BLOCK", 3}, {"JUNK", 4}, {"UNARY", 14}, {"BINARY", 20}, {"DECL", 150}, {"TOR", 1}, {"AUTO", 1}, {"DECLTYPE", 1}, {"GUIDE_NAME", 0}, {"DECL_FILL", 12}, {"ADD_STMT", 14}, {"TOKEN", 0}, {"ANNOTATION", 0}, {"COMMENT", 0},
      {"XLIST", 3}, {"XLIST_PUSH", 4}, {"CALL", 4}, {"ENUMERATOR", 6}, {"BASE", 3}, {"UDT_NAME", 8}, {"BLOCK", 8}, {"MAP_FILL", 6}, {"MAPPING", 5},
      {"PLIST_ADD", 8}, {"CAPTURE", 0}, {"SBIND_PUSH", 0}, {"USING_PUSH", 0}, {"PRAGMA_TOKEN", 0}, {"REQ_PUSH", 0}, {"STMT_ATTR", 0}}},
    {"printer",          {   3,   3,   5,  3,   9,   7,   8,   5,  2,   1,   0,   1,   2,   6,   1,   0},
-    {{"PRINT", 22}, {"LOCATE", 8}, {"UNARY", 16}, {"BINARY", 16}, {"DECL", 14}, {"LITERAL", 12}, {"ENCLOSURE", 8}, {"ADD_STMT", 8}, {"BLOCK", 6}, {"UDT_NAME", 5}}},
+    {{"PRINT", 22}, {"DEEP_BLOCK", 4}, {"LOCATE", 8}, {"UNARY", 16}, {"BINARY", 16}, {"DECL", 14}, {"LITERAL", 12}, {"ENCLOSURE", 8}, {"ADD_STMT", 8}, {"BLOCK", 6}, {"UDT_NAME", 5}}},
    // C05: everything, with growth of containers, of the unification tables and of the string arena between re-observations
    {"stability",        {   4,   4,   5,  3,   8,   6,   8,   9,  3,   6,   3,   1,   2,   6,   2,   0},
     {{"REPEAT", 6}, {"JUNK", 1}, {"UNARY", 14}, {"BINARY", 14}, {"DECL", 18}, {"FORM", 10}, {"FORM_FILL", 6}, {"ATTR", 4}, {"TOKEN", 3}, {"LONGSTR", 5}, {"BULK", 2},
@@ -46,7 +46,7 @@ const Spec specs[] = {
      {"PRODUCT", 16}, {"SUM", 10}, {"XLIST", 8}, {"XLIST_PUSH", 20}, {"PLIST_ADD", 20}, {"MAPPING", 8}, {"ENUMERATOR", 10}, {"BASE", 6}, {"TRANSFER", 8},
      {"LINKAGE_W", 6}, {"LINKAGE_S", 4}, {"CONVENTION", 8}, {"LOGOGRAM", 8}, {"FUNCTION", 8}, {"DECL_FILL", 8}, {"MAP_FILL", 6}}},
    {"lifetime",         {   4,   4,   6,  3,   8,   6,   8,   6,  3,   5,   3,   1,   2,   5,   2,   0},
-    {{"PRINT", 3}, {"BULK", 1}, {"REPEAT", 8}, {"JUNK", 1}, {"LOCATE", 1}, {"DECL", 14}, {"UNARY", 12}, {"BINARY", 12}, {"LONGSTR", 5}}},
+    {{"PRINT", 3}, {"DEEP_BLOCK", 1}, {"BULK", 1}, {"REPEAT", 8}, {"JUNK", 1}, {"LOCATE", 1}, {"DECL", 14}, {"UNARY", 12}, {"BINARY", 12}, {"LONGSTR", 5}}},
 };
 
 std::vector<Profile> build()
